@@ -1093,3 +1093,37 @@ def p_c17_sends(tr, V, st):
             st['C17 device writes inspected'] += 1
             if b'(null)' in w['data'] or b'[unresolved]' in w['data']:
                 V.append(dict(sig='C17 a send string was formatted without the plug argument its %s needs', at=p.i, dev=fd2dev[fd], data=repr(w['data'][:80])))
+
+
+def p_m_c13(world):
+    def pred(tr, V, st):
+        """generated configuration: the `device` and `nodes` listings show exactly the configured map - every `304 <dev>: ... hosts=<set>`
+        line names exactly the nodes mapped to plugs of that device (also when a free plug precedes a used one), and a `307`
+        node list is exactly the configured nodes"""
+        want = {('d%d' % i).encode(): sorted(n.encode() for n in d['node'].values() if n) for i, d in enumerate(world.devs)}
+        allnodes = sorted(x for v in want.values() for x in v)
+        for fd, cv in client_views(tr).items():
+            items, tail = split_out(cv.cout)
+            for it in items:
+                if it[0] != 'line': continue
+                if it[1] == 304:
+                    m = re.match(rb'^(\S+): .*hosts=(\S*)', it[2])
+                    if not m or m.group(1) not in want: continue
+                    st['C13 device listing lines checked'] += 1
+                    try: got = sorted(expand_hl(m.group(2))) if m.group(2) else []
+                    except Exception: got = None
+                    # `device <targets>` restricts the listing to devices that have one of the targets, but shows all their hosts
+                    if got != want[m.group(1)]:
+                        V.append(dict(sig="C13 the 'device' listing does not show the configured nodes of a device", fd=fd, dev=m.group(1).decode(), shown=repr(m.group(2))[:80], configured=[x.decode() for x in want[m.group(1)]]))
+                elif it[1] == 306:
+                    st['C13 nodes listing lines checked'] += 1
+                    try: got = sorted(expand_hl(it[2].strip()))
+                    except Exception: got = None
+                    if got != allnodes:
+                        V.append(dict(sig="C13 the 'nodes' listing is not the configured node set", fd=fd, shown=repr(it[2])[:80], configured=[x.decode() for x in allnodes]))
+                elif it[1] == 307:
+                    # expanded listing (exprange on): one node per line
+                    if it[2].strip() not in allnodes:
+                        V.append(dict(sig="C13 the expanded 'nodes' listing shows a name that is no configured node", fd=fd, shown=repr(it[2])[:80]))
+    pred.__name__ = 'p_m_c13'
+    return pred
